@@ -338,6 +338,11 @@ def gen_marked_edit(rng, doc, texts, avoid_pi=()):
         rng.shuffle(cands)
         for a, b, f, txt in cands:
             bold, ital = sem.onoff_true(f[0]), sem.onoff_true(f[1])
+            if (a > 0 and (acc[a - 1]["c"].isalnum() or acc[a - 1]["c"] == "_")) or \
+                    (b < len(acc) and (acc[b]["c"].isalnum() or acc[b]["c"] == "_")):
+                # the formatted run is glued to a word character ('r' + italic 'eed'): quoted with its markers it reads
+                # like an identifier (r_eed_), which the engine rightly keeps literal
+                continue
             pre = ("**" if bold else "") + ("_" if ital else "")
             suf = ("_" if ital else "") + ("**" if bold else "")
             lead = ""
